@@ -135,14 +135,133 @@ def run(tier, seed, agg):
     cs = cases(tier)
     cs += [dict(c, stateless=5 if tier == 'quick' else 7) for c in cs if not any(x.get('fixed') for x in c['comps']) and c['end'] in (3.5, 6)]
     acheck.run_cases(cs, CLAUSES, agg, judge, seed)
+    from core.pool import pmap
+
+    for r in pmap(run_lib, lib_cases(tier), chunksize=4):
+        agg.add(r)
+    import os
+    import shutil
+
+    shutil.rmtree(os.path.join(os.path.dirname(os.path.dirname(os.path.dirname(os.path.abspath(__file__)))), "work", "C03"), ignore_errors=True)
     return dict(
         level="model_checking",
         rule="explicit-state BFS over the real Composition.run for 7 (quick) / 10 (thorough) end times per family (step lengths are environment choices) plus fixed cyclic step lists crossed with the full half-hour "
-        "end-time lattice (incl. end <= start); life-cycle automaton per component and finalize counter per adapter are part of the state; update cap turns a hang into a violation",
+        "end-time lattice (incl. end <= start); life-cycle automaton per component and finalize counter per adapter are part of the state; update cap turns a hang into a violation (also a driver that spins without updating anybody: reads of the components' time are counted). "
+        "The library's own components (CsvReader with 1-4 rows, CallbackGenerator, DebugConsumer, DebugPushConsumer, CsvWriter, an extra clock) in all small combinations x end times x both listing orders, same oracle on the recorded update history",
         bound=dict(end_times="-1 .. 7 h" if tier == "quick" else "-1 .. 12 h (half-hour lattice)", step_menu="{1,2,3}/{1,2}", update_cap=400),
         assumptions=["only leaf consumers declare themselves FINISHED early (a producer that finishes while a consumer still needs it is not a valid composition)", "valid compositions only (acyclic or delay-resolved rings)"],
     )
 
 
+def run_lib(case):
+    """the library's own components (CSV reader/writer, generators, debug consumers, time trigger) in small compositions: same oracle
+    (run returns, times strictly increase, nobody is updated after having finished or after everybody reached the end, everything finalized)"""
+    import os
+    import shutil
+    from datetime import timedelta
+
+    from core.common import T0, fm
+    from core.runner import viol
+
+    day = timedelta(days=1)
+    work = os.path.join(os.path.dirname(os.path.dirname(os.path.dirname(os.path.abspath(__file__)))), "work", "C03", f"{os.getpid()}")
+    os.makedirs(work, exist_ok=True)
+    res = dict(n=1, states=0, transitions=0, traces=1, nontrivial=1, counters={"library_component_runs": 1}, violations=[])
+    try:
+        hist = []
+        comps = {}
+
+        def watch(name, c):
+            comps[name] = c
+            inner = c._update
+
+            def upd():
+                before, sb = getattr(c, "_time", None), c.status
+                inner()
+                hist.append((name, before, getattr(c, "_time", None), sb.name, c.status.name))
+
+            c._update = upd
+            return c
+
+        kind, n = case["prod"]
+        if kind == "csv":
+            path = os.path.join(work, "in.csv")
+            with open(path, "w", encoding="utf8") as f:
+                f.write("T;X\n")
+                for k in range(n):
+                    f.write(f"{(T0 + k * day).isoformat()};{float(k)}\n")
+            prod = watch("P", fm.components.CsvReader(path, time_column="T", outputs={"X": ""}))
+            pout = "X"
+        else:
+            prod = watch("P", fm.components.CallbackGenerator(callbacks={"X": (lambda t: float(t.day), fm.Info(time=None, grid=fm.NoGrid()))}, start=T0 + case.get("pstart", 0) * day, step=n * day))
+            pout = "X"
+        clock = watch("K", fm.components.CallbackGenerator(callbacks={"Out": (lambda t: float(t.day), fm.Info(time=None, grid=fm.NoGrid()))}, start=T0, step=case["kstep"] * day)) if case.get("kstep") else None
+        ck = case["cons"]
+        ins = {"X": fm.Info(time=None, grid=fm.NoGrid(), units=None)}
+        if clock is not None:
+            ins["Clock"] = fm.Info(time=None, grid=fm.NoGrid(), units=None)
+        if ck[0] == "push":
+            cons = watch("C", fm.components.DebugPushConsumer(inputs=ins))
+        elif ck[0] == "debug":
+            cons = watch("C", fm.components.DebugConsumer(inputs=ins, start=T0, step=ck[1] * day))
+        else:
+            cons = watch("C", fm.components.CsvWriter(path=os.path.join(work, "out.csv"), inputs=list(ins), time_column="T", separator=";", start=T0, step=ck[1] * day))
+        listed = [c for c in (prod, clock, cons) if c is not None]
+        if case["order"] == "rev":
+            listed.reverse()
+        comp = fm.Composition(listed, print_log=False, log_level=50)
+        prod.outputs[pout] >> cons.inputs["X"]
+        if clock is not None:
+            clock.outputs["Out"] >> cons.inputs["Clock"]
+        end = T0 + case["end"] * day
+        bad = []
+        try:
+            comp.run(start_time=T0, end_time=end)
+        except Exception as e:  # noqa
+            bad.append(("run_raised:" + type(e).__name__, f"{type(e).__name__}: {str(e)[:120]}"))
+        else:
+            done = {}
+            for i, (name, before, after, sb, sa) in enumerate(hist):
+                if before is not None and after is not None and not after > before:
+                    bad.append(("time_not_increasing", f"update #{i} of {name}: {before} -> {after} (status {sb} -> {sa})"))
+                if sb == "FINISHED" or done.get(name):
+                    bad.append(("updated_after_finished", f"update #{i} of {name}"))
+                if sa == "FINISHED":
+                    done[name] = True
+            for name, c in comps.items():
+                if c.status != fm.ComponentStatus.FINALIZED:
+                    bad.append(("final_status", f"{name}: {c.status.name}"))
+                if isinstance(c, fm.ITimeComponent) and c.time < end and not done.get(name):
+                    bad.append(("end_not_reached", f"{name} at {c.time} < {end}"))
+            res["states"] = res["transitions"] = len(hist)
+        for clause, detail in bad[:3]:
+            fp = dict(kind="library_components", clause=clause, prod=case["prod"][0], cons=case["cons"][0])
+            if case["prod"][0] == "csv" and case["prod"][1] == 1:
+                fp = dict(kind="library_components", clause=clause, prod="csv", rows=1)
+            res["violations"].append(viol(fp, f"{case}: {clause}: {detail}", dict(case, lib=True)))
+    finally:
+        shutil.rmtree(work, ignore_errors=True)
+    res["sample"] = dict(case)
+    return res
+
+
+def lib_cases(tier):
+    out = []
+    for prod in (("csv", 1), ("csv", 2), ("csv", 4), ("gen", 1), ("gen", 2), ("gen", 3)):
+        for cons in (("push",), ("debug", 1), ("debug", 2), ("writer", 1)):
+            for kstep in (None, 1, 2):
+                for end in (1, 3, 4, 6) if tier == "quick" else (0, 1, 2, 3, 4, 5, 6, 9):
+                    for order in ("id", "rev"):
+                        # a pulling consumer needs data up to its own time: a file that ends earlier is not a valid composition for it
+                        if prod[0] == "csv" and cons[0] != "push" and -(-end // cons[1]) * cons[1] > prod[1] - 1:
+                            continue
+                        if cons[0] == "push" and kstep is None and prod[0] == "csv" and end > prod[1] - 1:
+                            continue  # nothing keeps the run going beyond the file: the reader finishes, fine, but covered by the clocked variant
+                        out.append(dict(lib=True, prod=list(prod), cons=list(cons), kstep=kstep, end=end, order=order))
+    return out
+
+
 def replay(case):
+    if case.get("lib"):
+        return run_lib(case)["violations"]
     return acheck.replay_case(case, CLAUSES, judge)
